@@ -718,18 +718,22 @@ enum LineStart {
     InRewrittenString,
     /// the line starts inside a token that is reproduced verbatim
     InVerbatimToken,
+    /// the line starts at a token that only the over-approximating mask calls verbatim (asm code in a
+    /// file with conditional directives): it may or may not be formatted
+    MaybeVerbatim,
 }
 
 /// (byte offset, kind) of every line start of `out`
 fn line_starts(out: &str, fms: bool) -> Vec<(usize, LineStart)> {
     let toks = r::scan(out);
     let mask = verbatim_mask(out, &toks);
+    let definite = verbatim_mask_definite(out, &toks);
     let mut inside: Vec<(usize, usize, LineStart)> = vec![];
     for (k, t) in toks.iter().enumerate() {
         let text = t.text(out);
         if mask[k] {
             // a verbatim token brings its own leading whitespace
-            inside.push((t.ws, t.end, LineStart::InVerbatimToken));
+            inside.push((t.ws, t.end, if definite[k] { LineStart::InVerbatimToken } else { LineStart::MaybeVerbatim }));
         } else if text.contains('\n') {
             let rewritten = fms
                 && !mask[k]
@@ -793,7 +797,18 @@ pub fn c10_pair(x: &str, tw: u8, ci: u8, base: &Cfg, ctx: &mut Ctx) {
         return;
     }
     let d = detab(&ot, tw as usize, base.fms);
-    if d != os {
+    // lines that may or may not be verbatim are accepted in either reading
+    let lenient_equal = || {
+        let starts = line_starts(&ot, base.fms);
+        let ld: Vec<&str> = d.split_inclusive('\n').collect();
+        let lr: Vec<&str> = ot.split_inclusive('\n').collect();
+        let ls: Vec<&str> = os.split_inclusive('\n').collect();
+        ld.len() == ls.len()
+            && lr.len() == ls.len()
+            && starts.len() >= ls.len()
+            && (0..ls.len()).all(|k| ld[k] == ls[k] || (starts[k].1 == LineStart::MaybeVerbatim && lr[k] == ls[k]))
+    };
+    if d != os && !lenient_equal() {
         ctx.fail(
             "C10",
             "tabs-vs-spaces",
